@@ -7,7 +7,8 @@
 From Coq Require Import ZArith List Bool.
 From Common Require Import CxxSem.
 From C05.gen Require Import GenBox.
-From C05 Require Import Interp Ops Spec ProofsOrd ProofsDef.
+From Coq Require Import Reals.
+From C05 Require Import Interp Ops Spec ProofsOrd ProofsOrdId ProofsOrdBox ProofsDef ProofsR.
 Import ListNotations.
 
 (* contains(p) is true exactly when lower <= p <= upper in every component *)
@@ -51,22 +52,22 @@ Print Assumptions extend_box_smallest.
 (* the default-constructed empty box [pos_inf, neg_inf] is the identity of extend *)
 Theorem extend_empty_id_int : forall o, ord_laws o -> forall r, In r (int_insts (IO o)) -> forall b, box_in_range o r b ->
   r_extendb r (r_default r) b = b /\ r_extendb r (r_emptyty r) b = b /\ canonical_empty o r (r_default r).
-Proof. exact ProofsOrd.extend_empty_id_int. Qed.
+Proof. exact ProofsOrdId.extend_empty_id_int. Qed.
 Print Assumptions extend_empty_id_int.
 
 Theorem extend_empty_id_float : forall o, ord_laws o -> neg_top o -> forall r, In r (float_insts (IO o)) -> forall b, box_in_range o r b ->
   r_extendb r (r_default r) b = b /\ r_extendb r (r_emptyty r) b = b /\ canonical_empty o r (r_default r).
-Proof. exact ProofsOrd.extend_empty_id_float. Qed.
+Proof. exact ProofsOrdId.extend_empty_id_float. Qed.
 Print Assumptions extend_empty_id_float.
 
 Theorem extend_empty_point_int : forall o, ord_laws o -> forall r, In r (int_insts (IO o)) -> forall p,
   Forall (in_range o) (comps r p) -> r_extendp r (r_default r) p = mkbox r p p.
-Proof. exact ProofsOrd.extend_empty_point_int. Qed.
+Proof. exact ProofsOrdId.extend_empty_point_int. Qed.
 Print Assumptions extend_empty_point_int.
 
 Theorem extend_empty_point_float : forall o, ord_laws o -> neg_top o -> forall r, In r (float_insts (IO o)) -> forall p,
   Forall (in_range o) (comps r p) -> r_extendp r (r_default r) p = mkbox r p p.
-Proof. exact ProofsOrd.extend_empty_point_float. Qed.
+Proof. exact ProofsOrdId.extend_empty_point_float. Qed.
 Print Assumptions extend_empty_point_float.
 
 (* intersectionOf contains exactly the common points: ALL boxes, empty and inverted included *)
@@ -77,14 +78,14 @@ Print Assumptions intersection_spec.
 
 Theorem disjoint_iff_not_touching : forall o r, In r (touch_insts (IO o)) -> forall a b,
   t_touching r a b = negb (b_disjoint r a b).
-Proof. exact ProofsOrd.disjoint_iff_not_touching. Qed.
+Proof. exact ProofsOrdBox.disjoint_iff_not_touching. Qed.
 Print Assumptions disjoint_iff_not_touching.
 
 (* the intersection is empty exactly when disjoint() holds: non-empty operands ... *)
 Theorem intersection_empty_iff_disjoint : forall o, ord_laws o -> forall r, In r (box_insts (IO o)) -> forall a b,
   nonempty o r a -> nonempty o r b ->
   (r_isempty r (b_inter r a b) = true <-> b_disjoint r a b = true).
-Proof. exact ProofsOrd.intersection_empty_iff_disjoint. Qed.
+Proof. exact ProofsOrdBox.intersection_empty_iff_disjoint. Qed.
 Print Assumptions intersection_empty_iff_disjoint.
 
 (* ... or the canonical empty box against any box that has a finite face *)
@@ -92,7 +93,7 @@ Theorem canonical_empty_disjoint : forall o, ord_laws o -> ltb o (bot o) (top o)
   canonical_empty o r a -> box_in_range o r b ->
   r_isempty r (b_inter r a b) = true /\
   (b_disjoint r a b = true <-> Exists (fun x => ltb o (bot o) x = true) (lows o r b) \/ Exists (fun x => ltb o x (top o) = true) (highs o r b)).
-Proof. exact ProofsOrd.canonical_empty_disjoint. Qed.
+Proof. exact ProofsOrdBox.canonical_empty_disjoint. Qed.
 Print Assumptions canonical_empty_disjoint.
 
 Local Open Scope Z_scope.
@@ -119,12 +120,12 @@ Print Assumptions extend_inverted_refuted.
 (* clamp returns the nearest contained point *)
 Theorem clamp_in : forall o, ord_laws o -> forall r, In r (range_insts (IO o)) -> forall b p,
   nonempty o r b -> pt_in o r b (r_clamp r b p).
-Proof. exact ProofsOrd.clamp_in. Qed.
+Proof. exact ProofsOrdBox.clamp_in. Qed.
 Print Assumptions clamp_in.
 
 Theorem clamp_id : forall o, ord_laws o -> forall r, In r (range_insts (IO o)) -> forall b p,
   pt_in o r b p -> r_clamp r b p = p.
-Proof. exact ProofsOrd.clamp_id. Qed.
+Proof. exact ProofsOrdBox.clamp_id. Qed.
 Print Assumptions clamp_id.
 
 (* nearest, order form: in every component clamp(p) lies between p and q, for every q of the box
@@ -132,7 +133,7 @@ Print Assumptions clamp_id.
 Theorem clamp_nearest : forall o, ord_laws o -> forall r, In r (range_insts (IO o)) -> forall b p q,
   nonempty o r b -> pt_in o r b q ->
   Forall3 (between o) (comps r p) (comps r (r_clamp r b p)) (comps r q).
-Proof. exact ProofsOrd.clamp_between. Qed.
+Proof. exact ProofsOrdBox.clamp_between. Qed.
 Print Assumptions clamp_nearest.
 
 (* size, center, area, volume, scaling, translation, comparison: definitional equalities for EVERY numeric interpretation *)
@@ -212,3 +213,41 @@ Example ex_intersection_touching : b_inter (bops_2i (IO OZ32)) (b2 0 0 2 2) (b2 
 Proof. repeat split; reflexivity. Qed.
 Example ex_clamp : r_clamp (ops_2i (IO OZ32)) (b2 0 1 4 5) (mk_vec2 (IO OZ32) 7 (-2)) = mk_vec2 (IO OZ32) 4 1.
 Proof. reflexivity. Qed.
+
+(* ------------------------------------------------------------------ ideal reading over R (Coq Reals axioms) *)
+Local Close Scope Z_scope.
+Local Open Scope R_scope.
+
+(* xfmBounds of a box contains the image of every point of the box - whatever value M stands for infinity *)
+Theorem xfmBounds_contains : forall M eps m b p,
+  let I := IO (OR M eps) in
+  range_t_v3f_contains__v3f I b p = true ->
+  range_t_v3f_contains__v3f I (xfmBounds__AffineSpaceT_LinearSpace3_v3f_v3f_range_t_v3f I m b)
+                              (xfmPoint__AffineSpaceT_LinearSpace3_v3f_v3f_v3f I m p) = true.
+Proof. exact ProofsR.xfmBounds_contains. Qed.
+Print Assumptions xfmBounds_contains.
+
+(* intersectRayBox covers exactly the ray parameters whose points lie inside the box: non-empty box, every |dir_i| >= FLT_MIN
+   (then rcp_safe is the exact reciprocal).  Empty boxes: known finding C05-intersectRayBox-empty-box; dir_i = 0: compared
+   numerically by the harness (rcp_safe reads it as +-FLT_MIN). *)
+Theorem slab_exact_3 : forall M eps org dir box tr t,
+  let I := IO (OR M eps) in
+  0 < eps -> Forall (fun d => eps <= Rabs d) (comps (ops_3f I) dir) -> nonempty (OR M eps) (ops_3f I) box ->
+  let r := intersectRayBox__v3f_v3f_range_t_v3f_range_t_f I org dir box tr in
+  (range_t_s_lower r <= t /\ t <= range_t_s_upper r) <->
+  ((range_t_s_lower tr <= t /\ t <= range_t_s_upper tr) /\ range_t_v3f_contains__v3f I box (ray_point3 M eps org dir t) = true).
+Proof. exact ProofsR.slab_exact_3. Qed.
+Print Assumptions slab_exact_3.
+
+Theorem slab_exact_2 : forall M eps org dir box tr t,
+  let I := IO (OR M eps) in
+  0 < eps -> Forall (fun d => eps <= Rabs d) (comps (ops_2f I) dir) -> nonempty (OR M eps) (ops_2f I) box ->
+  let r := intersectRayBox__v2f_v2f_range_t_v2f_range_t_f I org dir box tr in
+  (range_t_s_lower r <= t /\ t <= range_t_s_upper r) <->
+  ((range_t_s_lower tr <= t /\ t <= range_t_s_upper tr) /\ range_t_v2f_contains__v2f I box (ray_point2 M eps org dir t) = true).
+Proof. exact ProofsR.slab_exact_2. Qed.
+Print Assumptions slab_exact_2.
+
+(* the reals are an instance of the order laws, so every order theorem above also reads over R *)
+Theorem or_laws : forall M eps, ord_laws (OR M eps) /\ neg_top (OR M eps).
+Proof. exact ProofsR.or_laws_full. Qed.
